@@ -36,6 +36,18 @@ func init() {
 					}
 					// hostile value next to good ones
 					c.Queries = append(c.Queries, eQuery{A: []eAssign{{F: 0, V: tvInt("int", 7)}, {F: 1, V: v}, {F: 2, V: tvInt("int", 5)}}}, good[0])
+					// ... on each field in turn while the other fields satisfy conjunctions of larger size (the k-groups
+					// scan has then collected documents before the holder of a smaller group rejects the value); the
+					// retrievals that follow must not see them
+					for _, f := range []int{2, 4, 0, 1} {
+						a := append([]eAssign{}, good[0].A...)
+						for j := range a {
+							if a[j].F == f {
+								a[j].V = v
+							}
+						}
+						c.Queries = append(c.Queries, eQuery{A: a}, good[1], eQuery{A: []eAssign{{F: 0, V: tvInt("int", 9)}}})
+					}
 					add(c)
 				}
 			}
